@@ -66,6 +66,14 @@ class MV(metaclass=_MVMeta):
 _iostream.bytearray = BA
 _iostream.memoryview = MV
 
+# tornado's log output is not part of any property checked with this rig; executing the logging machinery
+# (record creation, traceback formatting, stream handler) under the symbolic tracer multiplies the explored
+# paths of every scenario that logs (read/write errors) about five-fold.  Stub: the loggers are disabled.
+import logging as _logging
+
+for _name in ("tornado.general", "tornado.application", "tornado.access"):
+    _logging.getLogger(_name).disabled = True
+
 
 def conc(x, lo, hi):
     """Return x as a concrete int by branching on its value (lo..hi).  Sizes that reach a
